@@ -430,6 +430,53 @@ func c07Recover(p *Prog, r *Report, cg *callGraph, prefixed *ssa.Function) {
 			})
 		}
 		r.Check("R07a", FuncName(f)+" recovers exactly structured errors", f.Pos(), okConv, "the deferred function must type-test the recovered value for the structured error type")
+		// … and nothing recovered is swallowed: from the edge on which recover() returned a non-nil value every path
+		// to the end of the deferred function stores an error into the enclosing function's result or panics
+		// again. A path that does neither turns a crash (or a structured error) into a declaration that is
+		// silently missing from a run that reports success.
+		for _, a := range deferredRecoverers(p, f) {
+			avoid := map[*ssa.BasicBlock]bool{}
+			var froms, rets []*ssa.BasicBlock
+			for _, b := range a.Blocks {
+				for _, in := range b.Instrs {
+					switch in := in.(type) {
+					case *ssa.Panic:
+						avoid[b] = true
+					case *ssa.Store:
+						if types.Identical(in.Val.Type(), types.Universe.Lookup("error").Type()) {
+							avoid[b] = true
+						}
+					case *ssa.Return:
+						rets = append(rets, b)
+					case *ssa.If:
+						// the test of the recovered value against nil
+						if bo, ok := in.Cond.(*ssa.BinOp); ok {
+							for _, side := range []ssa.Value{bo.X, bo.Y} {
+								if c, ok := side.(*ssa.Call); ok {
+									if bi, ok := c.Call.Value.(*ssa.Builtin); ok && bi.Name() == "recover" {
+										if bo.Op == token.NEQ {
+											froms = append(froms, b.Succs[0])
+										} else if bo.Op == token.EQL {
+											froms = append(froms, b.Succs[1])
+										}
+									}
+								}
+							}
+						}
+					}
+				}
+			}
+			swallowed := false
+			for _, fr := range froms {
+				for _, rt := range rets {
+					if !avoid[fr] && pathAvoiding(fr, rt, avoid, nil, p) {
+						swallowed = true
+					}
+				}
+			}
+			r.Check("R07a", FuncName(f)+" swallows nothing it recovers", a.Pos(), len(froms) > 0 && !swallowed,
+				fmt.Sprintf("the deferred function can return after recover() gave a non-nil value without storing an error or panicking again (%d nil-tests of the recovered value found): the declaration is dropped and no error is reported", len(froms)))
+		}
 	}
 }
 
